@@ -286,7 +286,34 @@ def report(ctx, key, what, replay_obj):
     return True
 
 
+def _sanitize_coverage(cov):
+    """keep the evidence valid against EVIDENCE.schema.json whatever a property module put in"""
+    ints = ("evaluations", "distinct_nontrivial", "states", "transitions", "traces_validated_against_impl",
+            "obligations", "discharged", "programs", "disagreements_checked")
+    for k in ints:
+        if k in cov:
+            try:
+                cov[k] = max(0, int(cov[k]))
+            except (TypeError, ValueError):
+                cov[k + "_note"] = str(cov.pop(k))
+    if "exhaustive" in cov and not isinstance(cov["exhaustive"], bool):
+        cov["exhaustive_note"] = str(cov["exhaustive"])
+        cov["exhaustive"] = False
+    if "samples" in cov and not isinstance(cov["samples"], list):
+        cov["samples"] = [cov["samples"]]
+    if not cov.get("samples"):
+        cov["samples"] = [{"note": "no case recorded"}]
+    for k in ("rule", "checker_cmd", "explanation"):
+        if k in cov and not isinstance(cov[k], str):
+            cov[k] = json.dumps(cov[k], default=str)
+    if "trusted_base" in cov:
+        cov["trusted_base"] = [str(x) for x in cov["trusted_base"]]
+    return cov
+
+
 def finish(ctx, coverage, assumptions, level="proof"):
+    coverage = _sanitize_coverage(coverage)
+    assumptions = [str(a) for a in (assumptions or [])]
     ev = {
         "property_id": ctx.prop,
         "tier": ctx.tier,
